@@ -547,6 +547,8 @@ impl Env {
         let pre_tables = if self.mmu.is_some() { table_frames(&self.pool, self.kind.rec_index()) } else { Default::default() };
         let poolptr: *mut Pool = &mut self.pool;
         let mut diff = || unsafe { (*poolptr).diff() };
+        out.flush();
+        crate::crash::arm(&format!("mh_crash {} {} {} {} {} {} => crash", op.opcode, op.szc, op.page, op.frame, op.flags, op.pflags));
         let obs = match self.kind {
             MapperKind::Mapped => {
                 let p4ref: &mut PageTable = unsafe { &mut *self.pool.frame_ptr(0) };
@@ -567,6 +569,7 @@ impl Env {
                 observe(&mut m, op, &mut alloc, probes, &mut diff)
             }
         };
+        crate::crash::disarm();
         let mut args = vec![op.opcode, op.szc, op.page, op.frame, op.flags, op.pflags, answers.len() as u64];
         for a in answers {
             args.push(a.unwrap_or(0));
